@@ -118,7 +118,10 @@ def prot_history_scenarios(rng, n, length):
         for _ in range(length):
             s, ln = rng.choice(ars)
             u = rng.random()
-            if u < 0.35:
+            if u < 0.08:
+                # resizing must keep the protection (the only area that can grow without colliding is the last one)
+                b.api(op="mem_resize_section", start=s, new=rng.choice([ln, ln + 8, ln - 8, ln]))
+            elif u < 0.35:
                 b.api(op="mem_prot", start=s if rng.random() < 0.9 else s + 1, prot=rng.choice([0, 1, 2, 3, 4, 5, 6, 7, 7, 8]))
             elif u < 0.6:
                 path, w = rng.choice(API_PATHS)
